@@ -386,6 +386,19 @@ def line (st : St) (l : String) : St × String :=
                  ({ st with nops := st.nops + 1, nraised := st.nraised + 1 }, "O " ++ showRes (deallocObj .data) ++ " | " ++ dump o) else bad
              | _, _ => bad)
           | _ => bad
+        else if name = "getk" || name = "getv" then
+          -- `get(table, p)` with `p` the key / value object inside the table's own slot array (the slot that holds key `k`)
+          match o, args with
+          | .tab t, [k] =>
+            (match parseVal k with
+             | some kv =>
+               let a : SlotArg := if name = "getk" then .key kv else .val kv
+               if (t.slotObj a).isNone then bad else
+               let (t', r) := t.getSlot a
+               ({ st with store := st.store.put id (.tab t'), nops := st.nops + 1, nraised := st.nraised + (match r with | .raised _ => 1 | _ => 0) },
+                "O " ++ showRes r ++ " | " ++ dump (.tab t'))
+             | none => bad)
+          | _, _ => bad
         else
         match o with
         | .nest n =>
